@@ -42,7 +42,10 @@ class Outside(Exception):
 
 def regex_ok_single_word(src):
     """a sub-regex is usable as a one-word predicate only if it cannot match across blanks"""
-    if re.search(r"(?<!\\)\.|\[\^|\\s|\\W|\\D| ", src):
+    if re.search(r"\[\^|\\s|\\W|\\D| ", src):
+        return False
+    outside_classes = re.sub(r"\[[^\]]*\]", "", src)      # a dot inside [...] is a literal dot
+    if re.search(r"(?<!\\)\.", outside_classes):
         return False
     return True
 
